@@ -6,7 +6,8 @@ transformed by clone / uniquify / flatten, written by sdn.compose(.v) and re-rea
 directions / widths / base indices, wires, instances (module, parameters, attributes), bit-level connections, assigns (same
 bit pairs); the text written is accepted by the reader; Inv of the re-read netlist.
 Normalisation taken from docs/source/reference/verilog_support.rst: ports of undefined direction (inferred black boxes) are
-written as inout ("defaults to inout on write"), so UNDEFINED before == INOUT after.
+written as inout ("defaults to inout on write"), so UNDEFINED before == INOUT after.  From IEEE 1364 3.7.1: the leading
+backslash of an escaped identifier is not part of the name, so a/b (flatten) == \\a/b (re-read).
 """
 import sys, json, os
 import rtcommon as R
@@ -35,6 +36,16 @@ def canon(n):
                     del d['cables'][pn]
                     for b in range(p['width']):
                         del d['nets']['%s[%d]' % (pn, p['base'] + b)]
+    return c
+
+
+def plain_names(c):
+    """names without the escaped-identifier decoration, lists sorted again afterwards"""
+    c = R.unescape(c)
+    for l in c['libs'].values():
+        for d in l['defs'].values():
+            d['nets'] = {k: sorted(v, key=json.dumps) for k, v in d['nets'].items()}
+            d['assigns'] = sorted((sorted(a, key=json.dumps) for a in d['assigns']), key=json.dumps)
     return c
 
 
@@ -68,7 +79,7 @@ def roundtrip(run, n, t):
         raise
     except BaseException as e:
         return [('%s.transform-raises' % PID, '%s:%s@%s' % (t, type(e).__name__, R.where(e)), '%s raised %s: %s' % (t, type(e).__name__, str(e)[:200]))]
-    c0 = undefined_as_inout(canon(n))
+    c0 = plain_names(undefined_as_inout(canon(n)))
     path = run.path('.v')
     f = R.try_compose(n, path, PID)
     if f:
@@ -77,7 +88,7 @@ def roundtrip(run, n, t):
     if f:
         return [(f[0], t + ':' + f[1], f[2])]
     try:
-        c1 = undefined_as_inout(canon(m))
+        c1 = plain_names(undefined_as_inout(canon(m)))
     except Exception as e:
         return [(PID + '.malformed', type(e).__name__, 'the re-read netlist cannot be walked: %r' % e)]
     fails = [(a, t + ':' + b, c) for a, b, c in R.failures_from_diff(PID, R.diff(c0, c1))]
